@@ -326,7 +326,8 @@ ORACLES = {
                     'bodies with disjunction / negation, zero-solution bodies', 250, 4000, kind='infer'),
             _oracle('inference, conjunctive bodies only', 100, 1500, kind='infer', neg=False, depth=1),
             _oracle('a constructor argument that is also an operand of the or_ in the rule body (falsy values are passed on)', 100, 1500,
-                    kind='reuse', both_roles='argument')],
+                    kind='reuse', both_roles='argument'),
+            _oracle('positional arguments of a dataclass whose field order differs from its parameter order (keyword-only base field): rule heads and predicate-form terms', 80, 1200, kind='kwonly_positional')],
     'C12': [_oracle('rule trees: refinement / alternative nested two levels, six shapes', 250, 4000, kind='rdr'),
             _oracle('random rule trees: up to 5 rules, several refinements / alternatives per block, nested two levels', 300, 5000,
                     kind='rdrtree', rules=5, depth=2),
@@ -347,7 +348,8 @@ ORACLES = {
             _oracle('registry histories without clearing, 16 steps', 100, 2000, kind='registry', clear=False, steps=16)],
     'C13': [_oracle('predicate form vs explicit query, mixed-type domains, positional and keyword fields', 250, 4000, kind='predform', allow_empty=True),
             _oracle('ONE From(d) object handed to two terms of different types (joined); the From object still holds d afterwards', 120,
-                    2000, kind='predform_shared')],
+                    2000, kind='predform_shared'),
+            _oracle('positional arguments of a dataclass whose field order differs from its parameter order (keyword-only base field): rule heads and predicate-form terms', 80, 1200, kind='kwonly_positional')],
     'C04': [_oracle('histories of full / partial / aborted evaluations (result cache on)', 200, 3000, kind='history'),
             _oracle('histories (result cache off)', 100, 1500, kind='history', caching=False),
             _oracle('histories over a domain that lists an object twice', 100, 1500, kind='history', duplicates=True),
